@@ -23,6 +23,7 @@
 (*        floor(value * 65536), yx: exact; (h, l) = order key of the value  *)
 (*  speed        u k | p sp tp tm ex           ClockSpeed unit u, 2^k ticks  *)
 (*        per second; the three conversions * 1024 (ex: all integers)       *)
+(*  speed_i      u1 k1 u2 k2 q | p ex ru r tp  tween between speeds in two units *)
 (*  speed_r      u | p e1 e2 id                residuals * 10^9 (see below)  *)
 (*  semi         k | p r0 r12                  PlaybackRate::from(Semitones) *)
 (*        at s and s + 12, * 10^6 rounded; k # -99: s = 12 k exactly        *)
@@ -162,6 +163,14 @@ Check(m, e) ==
          IF e.p THEN "no_panic"
          ELSE IF ~e.ex \/ e.tp # TicksPerSecond1024(e.k) \/ e.sp # SecondsPerTick1024(e.k)
                  \/ e.tm # TicksPerMinute1024(e.k) THEN "clock_speed_units_consistent" ELSE ""
+    [] e.a = "speed_i" ->
+         \* a tween from 2^k1 to 2^k2 ticks per second, each given in any unit, q quarters of the way (tp: the result in
+         \* ticks per second * 1024): it starts at the first speed, ends at the second and stays between them
+         IF e.p THEN "no_panic"
+         ELSE IF \/ (e.q = 0 /\ e.tp # TicksPerSecond1024(e.k1)) \/ (e.q = 4 /\ e.tp # TicksPerSecond1024(e.k2))
+                 \/ e.tp < Min2(TicksPerSecond1024(e.k1), TicksPerSecond1024(e.k2))
+                 \/ e.tp > Max2(TicksPerSecond1024(e.k1), TicksPerSecond1024(e.k2))
+              THEN "clock_speed_units_consistent" ELSE ""
     [] e.a = "speed_r" ->
          \* e1 = (seconds_per_tick * ticks_per_second - 1) * 10^9, e2 = (ticks_per_minute / (60 ticks_per_second) - 1) * 10^9,
          \* id: converting to the unit the speed was given in returns the given number
